@@ -102,6 +102,29 @@ impl<'a> Ex<'a> {
         Ok(())
     }
 
+    /// `nth` / `skip` / `step_by` on a fresh iterator (they may be specialised by the library).
+    fn adaptors(&mut self, what: &str, with_shx: bool) -> Result<(), Fail> {
+        for variant in 0..3u8 {
+            let Some(mut r) = self.open(what, with_shx)? else { return Ok(()) };
+            let mut it = r.iter_shapes();
+            let mut n = 0usize;
+            loop {
+                let label = format!("{} adaptor variant {} call #{}", what, variant, n);
+                let item = self.call(&label, || match variant {
+                    0 => it.nth(1).map(|r| r.map(|_| ())),
+                    1 => it.nth(if n % 2 == 0 { 0 } else { 3 }).map(|r| r.map(|_| ())),
+                    _ => it.nth(2).map(|r| r.map(|_| ())),
+                })?;
+                if item.is_none() {
+                    break;
+                }
+                n += 1;
+                ensure!(n <= self.cap, "unbounded-iteration", "{}: more than {} nth() results", what, self.cap);
+            }
+        }
+        Ok(())
+    }
+
     fn open(&mut self, what: &str, with_shx: bool) -> Result<Option<ShapeReader<Cursor<&'a [u8]>>>, Fail> {
         let (shp, shx) = (self.shp, self.shx);
         let r = self.call(&format!("{} open", what), move || {
@@ -141,6 +164,8 @@ impl<'a> Ex<'a> {
         if let Some(r) = self.open("noshx", false)? {
             self.call("noshx read()", move || r.read().map(|v| v.len()))?.ok();
         }
+        self.adaptors("noshx", false)?;
+        self.adaptors("shx", true)?;
         // B: typed, matching the header type and not matching
         let hty = if self.shp.len() >= 36 {
             Ty::from_code(i32::from_le_bytes(self.shp[32..36].try_into().unwrap()))
